@@ -66,15 +66,33 @@ def build_harness():
 
 
 def gqlv(cmd, jobs, timeout=900, env=None, extra_args=()):
-    """Run `gqlv <cmd>` on a list of job dicts, return list of result dicts."""
+    """Run `gqlv <cmd>` on a list of job dicts, return (list of result dicts, last process).
+    If the process dies while working on a job (stack overflow / abort in the code under test) that
+    job gets a synthetic result {"status": "crash"} and the remaining jobs run in a new process:
+    a crash of the code under test is data, not a tool error."""
     build_harness()
-    inp = "".join(json.dumps(j) + "\n" for j in jobs)
-    p = sh([GQLV, cmd, *extra_args], input=inp, timeout=timeout, env=env)
     out = []
-    for line in p.stdout.splitlines():
-        line = line.strip()
-        if line:
-            out.append(json.loads(line))
+    todo = list(jobs)
+    p = None
+    while todo:
+        inp = "".join(json.dumps(j) + "\n" for j in todo)
+        p = sh([GQLV, cmd, *extra_args], input=inp, timeout=timeout, env=env)
+        got = []
+        for line in p.stdout.splitlines():
+            line = line.strip()
+            if line:
+                try:
+                    got.append(json.loads(line))
+                except ValueError:
+                    break
+        out.extend(got)
+        if len(got) >= len(todo):
+            break
+        dead = todo[len(got)]
+        out.append({"id": dead.get("id"), "status": "crash", "parse": "crash", "panic": "crash",
+                    "msg": "driver process died with status %s while running this job: %s" % (
+                        p.returncode, (p.stderr or "")[-300:].strip())})
+        todo = todo[len(got) + 1:]
     return out, p
 
 
